@@ -8,7 +8,7 @@ from . import c02
 
 ID = 'C04'
 LEVEL = 'exploration'
-NONTRIVIAL_FLOOR = 0.3
+NONTRIVIAL_FLOOR = 0.2
 RULE = ('Part codec: exhaustive enumeration of the quality codec over all 94 phred characters and all 94^2 pairs '
         '(encode must be total and saturate at the top of the 52-letter table, decode(encode(q)) = min(q,51)). Part '
         'roundtrip: Hypothesis-generated accepted pairs of every strategy with phred characters over the full 33..126 '
